@@ -34,12 +34,14 @@ def enum_run(ctx, mode, stride, procs, maxnodes=3, maxlen=3, corrupt='none', tag
     """Run LvsEnum in `procs` processes (interleaved shards). Returns (names, [printed tuples])."""
     from concurrent.futures import ThreadPoolExecutor
     off0 = ctx.seed % stride
+    fs = min(stride, 3)            # focus shapes (LvsEnum!Focus) are sampled every 3rd instead of every stride-th
 
     def one(j):
         cfg = os.path.join(tlc.BUILD, 'LvsEnum_%s_%s%s_%d.cfg' % (ctx.prop, mode, tag, j))
         tlc.write_cfg(cfg, spec=None, init='EInit', next_='ENext', constants={
             'MaxNodes': maxnodes, 'MaxLen': maxlen, 'Corrupt': '"%s"' % corrupt, 'CountSteps': 'FALSE',
-            'DevPrebound': 'FALSE', 'Mode': '"%s"' % mode, 'Stride': stride * procs, 'Offset': off0 + j * stride})
+            'DevPrebound': 'FALSE', 'Mode': '"%s"' % mode, 'Stride': stride * procs, 'Offset': off0 + j * stride,
+            'FocusStride': fs * procs, 'FocusOffset': ctx.seed % fs + j * fs})
         return tlc.run('LvsEnum', cfg, workers=1, heavy=False, tag='lvse', timeout=3000)
     with ThreadPoolExecutor(procs) as ex:
         rs = list(ex.map(one, range(procs)))
